@@ -255,13 +255,18 @@ check("C12", "exploration",
       "lie within three support radii. Dummy records: apply_dp_padding on the three real helpers for hybrid reports (both modes) and "
       "aggregation rows, two parameter sets x 12 (60) seeds: the rows added are consistent sharings with value 0 (and breakdown key 0 / "
       "below the bucket count), hybrid dummies come in match-key groups of size 1..cap that never reuse a real match key, group and "
-      "per-bucket counts stay within three draws of the support, the input rows are preserved. distinct_nontrivial = distinct configurations / support points / parameter tuples / buckets executed.",
+      "per-bucket counts stay within three draws of the support, the input rows are preserved. Query-level switch: the real "
+      "Query::execute (one-shard malicious world, four encrypted reports = two attributed pairs) with with_dp in {0, 1, 2, 7, "
+      "u32::MAX}: 0 releases the exact totals, every other value a histogram that is not the exact one. "
+      "distinct_nontrivial = distinct configurations / support points / parameter tuples / buckets executed.",
       [{"name": "noise", "config": "A", "test": "protocol::dp::verif::c12::run",
         "require": {"any": {"truncation_points_checked": 200, "distinct:sampler_configs": 6, "share_mapping_cases_w32": 50}}},
        {"name": "released", "config": "A", "test": "protocol::dp::verif::c12n::run",
         "require": {"any": {"released_buckets": 1000, "noise_vectors": 10, "distinct:noise_values": 8}}},
        {"name": "dummies", "config": "A", "test": "verif::c12d::run",
-        "require": {"any": {"dummy_rows": 2000, "padding_runs": 50, "distinct:groups_per_cardinality": 6}}}],
+        "require": {"any": {"dummy_rows": 2000, "padding_runs": 50, "distinct:groups_per_cardinality": 6}}},
+       {"name": "dp-switch", "config": "A", "test": "query::runner::verif::c11::run_dp_switch", "timeout": {"quick": 1800, "thorough": 3600},
+        "require": {"any": {"dp_switch_runs": 5}}}],
       assumptions=["rand::distributions::Bernoulli draws one u64 per sample and succeeds iff it is below p*2^64",
                    "the released-bucket identity is checked differentially (same seed and gate => same noise): the three individual draws are not separated",
                    "the number of dummy records is checked against the support of the sampler here and against its law in the coin-tree part",
